@@ -40,6 +40,7 @@ type vxCConn struct {
 	readMax     int            // > 0: a Read returns at most this many bytes (models finer segmentation)
 	stallWrite int    // index of the Write call that blocks until Close (-1: none)
 	onStall    func() // called when that Write starts to block
+	zeroReads  int    // consecutive-or-not Reads with an empty buffer
 }
 
 func vxNewCConn() *vxCConn {
@@ -54,6 +55,9 @@ var vxErrConnClosed = &vxConnErr{"use of closed connection"}
 
 func (c *vxCConn) Read(p []byte) (int, error) {
 	if len(p) == 0 {
+		// a full receive buffer: a real connection returns (0, nil) at once; a client that keeps asking spins forever
+		c.zeroReads++
+		vxAssert(c.zeroReads < 4, "receive-loop-does-not-spin-on-a-full-buffer")
 		return 0, nil
 	}
 	if len(c.cur) == 0 {
